@@ -639,4 +639,296 @@ theorem lastIndexOf_last (inp find : List Nat) (hne : find ≠ []) :
         have hq : occursAt eqExact (f :: rest) inp j = true := hq
         rw [h4 j hj (occursAt_lt_iterations _ _ _ hne j hq)] at hq; exact Bool.noConfusion hq
 
+/-! ### the call sites of `runner.go`: a helper on `text[s:]`, `-1` ↦ no candidate, else `s + offset` -/
+
+theorem occursAt_drop (eq : Nat → Nat → Bool) (find text : List Nat) (s i : Nat) :
+    occursAt eq find (text.drop s) i = occursAt eq find text (i + s) := by
+  unfold occursAt; rw [List.drop_drop, Nat.add_comm]
+
+/-- the specified sub-slice search of the finder models, from `s`, over ANY range that covers the loop's -/
+theorem sub_callsite (eq : Nat → Nat → Bool) (text find : List Nat) (hne : find ≠ []) (s k' : Nat)
+    (hk : iterations (text.drop s) find ≤ k') :
+    absIdx s (some (toInt (findUp (occursAt eq find (text.drop s)) (iterations (text.drop s) find) 0))) =
+      findUp (occursAt eq find text) k' s := by
+  rw [absIdx_toInt]
+  have hsh := findUp_shift (occursAt eq find text) s (iterations (text.drop s) find) 0
+  rw [Nat.zero_add] at hsh
+  have hfun : (fun i => occursAt eq find text (i + s)) = occursAt eq find (text.drop s) :=
+    funext fun i => (occursAt_drop eq find text s i).symm
+  rw [hfun] at hsh
+  rw [← hsh]
+  refine (findUp_extend _ _ k' s hk ?_).symm
+  intro p hp _
+  cases ho : occursAt eq find text p with
+  | false => rfl
+  | true =>
+    have := occursAt_fits' eq find text p hne ho
+    have hm : 0 < find.length := List.length_pos_iff.mpr hne
+    simp only [iterations, List.length_drop] at hp
+    omega
+
+theorem indexOf_callsite (text find : List Nat) (hne : find ≠ []) (s k' : Nat)
+    (hk : iterations (text.drop s) find ≤ k') :
+    absIdx s (indexOf (text.drop s) find) = findUp (occursAt eqExact find text) k' s := by
+  rw [indexOf_eq _ _ hne]; exact sub_callsite eqExact text find hne s k' hk
+
+theorem indexOfIgnoreCase_callsite (lower : Nat → Nat) (text find : List Nat) (hne : find ≠ []) (s k' : Nat)
+    (hk : iterations (text.drop s) find ≤ k') :
+    absIdx s (indexOfIgnoreCase lower (text.drop s) find) = findUp (occursAt (eqLower lower) find text) k' s := by
+  rw [indexOfIgnoreCase_eq _ _ _ hne]; exact sub_callsite _ text find hne s k' hk
+
+theorem indexOfIgnoreCaseAscii_callsite (text find : List Nat) (hne : find ≠ []) (s k' : Nat)
+    (hk : iterations (text.drop s) find ≤ k') :
+    absIdx s (indexOfIgnoreCaseAscii (text.drop s) find) = findUp (occursAt eqAsciiFold find text) k' s := by
+  rw [indexOfIgnoreCaseAscii_eq _ _ hne]; exact sub_callsite _ text find hne s k' hk
+
+/-- the three-way choice of `findLeadingStringLeftToRight` / `indexOfLiteralAfterLoop` -/
+theorem leadingStringSearch_callsite (lower : Nat → Nat) (pat : List Nat) (ignoreCase : Bool) (text : List Nat)
+    (hne : pat ≠ []) (s k' : Nat) (hk : iterations (text.drop s) pat ≤ k') :
+    absIdx s (leadingStringSearch lower pat ignoreCase (text.drop s)) =
+      findUp (occursAt (stringEq lower ignoreCase pat) pat text) k' s := by
+  unfold leadingStringSearch stringEq
+  cases ignoreCase with
+  | false => simp only [Bool.false_eq_true, if_false]; exact indexOf_callsite text pat hne s k' hk
+  | true =>
+    simp only [if_true]
+    cases isAscii pat with
+    | true => simp only [if_true]; exact indexOfIgnoreCaseAscii_callsite text pat hne s k' hk
+    | false => simp only [Bool.false_eq_true, if_false]; exact indexOfIgnoreCase_callsite lower text pat hne s k' hk
+
+theorem iterations_drop_le (text find : List Nat) (s : Nat) (hne : find ≠ []) :
+    iterations (text.drop s) find ≤ text.length - s := by
+  have hm : 0 < find.length := List.length_pos_iff.mpr hne
+  simp only [iterations, List.length_drop]; omega
+
+theorem getElem?_beq_eq_memAt (text : List Nat) (c : Nat) :
+    (fun i => text[i]? == some c) = memAt (fun x => x == c) text := by
+  funext i
+  unfold memAt
+  cases text[i]? with
+  | none => rfl
+  | some x => simp
+
+theorem indexOfAny1_callsite (text : List Nat) (c s : Nat) :
+    absIdx s (indexOfAny1 (text.drop s) c) = findUp (fun i => text[i]? == some c) (text.length - s) s := by
+  rw [getElem?_beq_eq_memAt]; exact absIdx_rangeLoop _ text s
+
+theorem rangeLoop_false : ∀ (l : List Nat) (i : Nat), rangeLoop (fun _ => false) l i = -1 := by
+  intro l
+  induction l with
+  | nil => intro i; rfl
+  | cons c rest ih => intro i; simp [rangeLoop, ih]
+
+/-- `IndexOfAny` needs no special case for an empty `find`: the loop finds nothing -/
+theorem indexOfAny_eq (inp find : List Nat) : indexOfAny inp find = some (rangeLoop (fun c => find.contains c) inp 0) := by
+  unfold indexOfAny
+  by_cases h : find.length = 0
+  · rw [if_pos h]
+    have : find = [] := List.length_eq_zero_iff.mp h
+    subst this
+    have : (fun c : Nat => ([] : List Nat).contains c) = fun _ => false := by funext c; simp
+    rw [this, rangeLoop_false]
+  · rw [if_neg h]
+
+/-- `indexOfAnyRunes`: whichever of the five branches is taken, the first rune of the input that is in `find` -/
+theorem indexOfAnyRunes_eq (inp find : List Nat) :
+    indexOfAnyRunes inp find = some (rangeLoop (fun c => find.contains c) inp 0) := by
+  unfold indexOfAnyRunes
+  split
+  · rw [← indexOfAny_eq]; rfl
+  · unfold indexOfAny1; congr 1
+    exact rangeLoop_congr _ _ (fun c => by simp only [List.contains_cons, List.contains_nil, Bool.or_false]) _ _
+  · unfold indexOfAny2; congr 1
+    exact rangeLoop_congr _ _ (fun c => by simp only [List.contains_cons, List.contains_nil, Bool.or_false]) _ _
+  · unfold indexOfAny3; congr 1
+    exact rangeLoop_congr _ _ (fun c => by
+      simp only [List.contains_cons, List.contains_nil, Bool.or_false, Bool.or_assoc]) _ _
+  · exact indexOfAny_eq inp find
+
+theorem indexOfAny_callsite (text find : List Nat) (s : Nat) :
+    absIdx s (indexOfAny (text.drop s) find) = findUp (memAt (fun c => find.contains c) text) (text.length - s) s := by
+  rw [indexOfAny_eq]; exact absIdx_rangeLoop _ text s
+
+theorem memAt_take (S : Nat → Bool) (text : List Nat) (e i : Nat) (h : i < e) :
+    memAt S (text.take e) i = memAt S text i := by
+  unfold memAt; rw [List.getElem?_take_of_lt h]
+
+/-- the call of `findLeadingStringsLeftToRight`: `indexOfAnyRunes(r.Runtext[searchAt:latest+1], firstRunes)` -/
+theorem indexOfAnyRunes_callsite (text find : List Nat) (s e : Nat) (he : e ≤ text.length) :
+    absIdx s (indexOfAnyRunes ((text.take e).drop s) find) = findUp (memAt (fun c => find.contains c) text) (e - s) s := by
+  rw [indexOfAnyRunes_eq, absIdx_rangeLoop, List.length_take, Nat.min_eq_left he]
+  exact findUp_congr _ _ _ _ (fun p _ h2 => memAt_take _ text e p (by omega))
+
+/-- `indexOfSet(chars, set)`: whichever helper is selected, it searches the first rune passing
+    `charInFixedDistanceSet` -/
+theorem indexOfSet_eq (inp : List Nat) (st : FDSet) : indexOfSet inp st = some (rangeLoop st.mem inp 0) := by
+  unfold indexOfSet
+  by_cases hc : st.chars.length > 0
+  · have hne : st.chars.isEmpty = false := by
+      cases hch : st.chars with
+      | nil => rw [hch] at hc; simp at hc
+      | cons a b => rfl
+    cases hn : st.negated with
+    | false =>
+      simp only [hc, decide_true, Bool.not_false, Bool.and_self, if_true]
+      rw [indexOfAny_eq]; congr 1
+      exact rangeLoop_congr _ _ (fun c => by simp [FDSet.mem, hne, hn]) _ _
+    | true =>
+      simp only [hc, decide_true, Bool.not_true, Bool.and_false, Bool.false_eq_true, if_false, Bool.and_self, if_true]
+      unfold indexOfAnyExcept; congr 1
+      exact rangeLoop_congr _ _ (fun c => by simp [FDSet.mem, hne, hn, foundIn_eq]) _ _
+  · have he : st.chars.isEmpty = true := by
+      cases hch : st.chars with
+      | nil => rfl
+      | cons a b => rw [hch] at hc; simp at hc
+    simp only [hc, decide_false, Bool.false_and, Bool.false_eq_true, if_false]
+    cases hr : st.range with
+    | none =>
+      simp only
+      unfold indexFunc; rfl
+    | some lohi =>
+      obtain ⟨lo, hi⟩ := lohi
+      simp only
+      cases hn : st.negated with
+      | false =>
+        simp only [Bool.false_eq_true, if_false]
+        unfold indexOfAnyInRange; congr 1
+        exact rangeLoop_congr _ _ (fun c => by simp [FDSet.mem, he, hr, hn]) _ _
+      | true =>
+        simp only [if_true]
+        unfold indexOfAnyExceptInRange; congr 1
+        refine rangeLoop_congr _ _ (fun c => ?_) _ _
+        simp only [FDSet.mem, he, hr, hn, Bool.not_true, Bool.false_eq_true, if_false, if_true]
+        by_cases h1 : c > hi
+        · have : ¬ c ≤ hi := by omega
+          simp [h1, this]
+        · by_cases h2 : c < lo
+          · have : ¬ lo ≤ c := by omega
+            simp [h1, h2, this]
+          · have a1 : lo ≤ c := by omega
+            have a2 : c ≤ hi := by omega
+            simp [h1, h2, a1, a2]
+
+theorem indexOfSet_callsite (text : List Nat) (st : FDSet) (s : Nat) :
+    absIdx s (indexOfSet (text.drop s) st) = findUp (memAt st.mem text) (text.length - s) s := by
+  rw [indexOfSet_eq]; exact absIdx_rangeLoop _ text s
+
+theorem indexOfLiteralAfterLoop_callsite (lower : Nat → Nat) (l : LitAfterLoop) (text : List Nat) (s : Nat) :
+    indexOfLiteralAfterLoop lower l text s = findUp (l.litAt lower text) (text.length - s) s := by
+  unfold indexOfLiteralAfterLoop
+  by_cases hs : l.str.isEmpty = true
+  · have hfun1 : l.litAt lower text =
+        (if !l.chars.isEmpty then memAt (fun c => l.chars.contains c) text else fun k => text[k]? == some l.char) := by
+      funext k; unfold LitAfterLoop.litAt; simp only [hs, Bool.not_true, Bool.false_eq_true, if_false]
+      split <;> rfl
+    rw [hfun1]
+    simp only [hs, Bool.not_true, Bool.false_eq_true, if_false]
+    by_cases hc : l.chars.length > 0
+    · have : l.chars.isEmpty = false := by
+        cases hch : l.chars with
+        | nil => rw [hch] at hc; simp at hc
+        | cons a b => rfl
+      simp only [hc, decide_true, if_true, this, Bool.not_false]
+      exact indexOfAny_callsite text l.chars s
+    · have : l.chars.isEmpty = true := by
+        cases hch : l.chars with
+        | nil => rfl
+        | cons a b => rw [hch] at hc; simp at hc
+      simp only [hc, decide_false, Bool.false_eq_true, if_false, this, Bool.not_true]
+      exact indexOfAny1_callsite text l.char s
+  · have hs' : l.str.isEmpty = false := by simpa using hs
+    have hne : l.str ≠ [] := by intro h; rw [h] at hs'; simp at hs'
+    have hfun : l.litAt lower text = occursAt (stringEq lower l.strIgnoreCase l.str) l.str text := by
+      funext k; unfold LitAfterLoop.litAt; simp [hs']
+    rw [hfun]
+    simp only [hs', Bool.not_false, if_true]
+    have := leadingStringSearch_callsite lower l.str l.strIgnoreCase text hne s (text.length - s)
+      (iterations_drop_le text l.str s hne)
+    unfold leadingStringSearch at this
+    cases hi : l.strIgnoreCase with
+    | false => rw [hi] at this; simpa using this
+    | true => rw [hi] at this; simpa using this
+
+/-- `helpers.StartsWith(r.Runtext[start:], prefix)` for a non-empty prefix -/
+theorem startsWith_callsite (text pre : List Nat) (hne : pre ≠ []) (s : Nat) :
+    startsWith (text.drop s) pre = some (occursAt eqExact pre text s) := by
+  rw [startsWith_eq _ _ hne, occursAt_drop, Nat.zero_add]
+
+/-- `helpers.StartsWithIgnoreCase(r.Runtext[start:], prefix)` -/
+theorem startsWithIgnoreCase_callsite (lower : Nat → Nat) (text pre : List Nat) (s : Nat) :
+    startsWithIgnoreCase lower (text.drop s) pre = some (occursAt (eqLower lower) pre text s) := by
+  rw [startsWithIgnoreCase_eq, occursAt_drop, Nat.zero_add]
+
+/-! ### the finders with the calls spelled out are the finders of Model/Finders.lean -/
+
+theorem searchLoop_congr (guard : Nat → Bool) (idx idx' : Nat → Option Nat) (step : Nat → Step)
+    (h : ∀ s, guard s = true → idx s = idx' s) : ∀ (fuel s : Nat),
+    searchLoop guard idx step fuel s = searchLoop guard idx' step fuel s := by
+  intro fuel
+  induction fuel with
+  | zero => intro s; rfl
+  | succ fuel ih =>
+    intro s
+    unfold searchLoop
+    by_cases hg : guard s = true
+    · simp only [hg, if_true]
+      rw [h s hg]
+      cases idx' s with
+      | none => rfl
+      | some i =>
+        simp only
+        cases step i with
+        | found q => rfl
+        | giveUp => rfl
+        | next => exact ih (i + 1)
+    · simp [hg]
+
+theorem finderLeadingStringIx_eq (lower : Nat → Nat) (pat : List Nat) (ignoreCase : Bool) (text : List Nat)
+    (minLen pos : Nat) :
+    finderLeadingStringIx lower pat ignoreCase text minLen pos = finderLeadingString lower pat ignoreCase text minLen pos := by
+  unfold finderLeadingStringIx finderLeadingString
+  by_cases he : pat.isEmpty = true
+  · simp [he]
+  · have hne : pat ≠ [] := by intro h; rw [h] at he; simp at he
+    simp only [he, Bool.false_eq_true, if_false]
+    rw [leadingStringSearch_callsite lower pat ignoreCase text hne pos (text.length + 1 - pos)
+      (by have := iterations_drop_le text pat pos hne; omega)]
+    rfl
+
+theorem finderFixedCharIx_eq (c d : Nat) (text : List Nat) (minLen pos : Nat) :
+    finderFixedCharIx c d text minLen pos = finderFixedChar c d text minLen pos := by
+  unfold finderFixedCharIx finderFixedChar
+  simp only
+  rw [searchLoop_congr _ _ _ _ (fun s _ => indexOfAny1_callsite text c s)]
+
+theorem finderFixedStringIx_eq (lit : List Nat) (d : Nat) (text : List Nat) (minLen pos : Nat) :
+    finderFixedStringIx lit d text minLen pos = finderFixedString lit d text minLen pos := by
+  unfold finderFixedStringIx finderFixedString
+  by_cases he : lit.isEmpty = true
+  · simp [he]
+  · have hne : lit ≠ [] := by intro h; rw [h] at he; simp at he
+    simp only [he, Bool.false_eq_true, if_false]
+    rw [searchLoop_congr _ _ _ _ (fun s _ => indexOf_callsite text lit hne s (text.length + 1 - s)
+      (by have := iterations_drop_le text lit s hne; omega))]
+
+theorem finderFixedSetsIx_eq (sets : List FDSet) (text : List Nat) (minLen pos : Nat) :
+    finderFixedSetsIx sets text minLen pos = finderFixedSets sets text minLen pos := by
+  unfold finderFixedSetsIx finderFixedSets
+  cases sets with
+  | nil => rfl
+  | cons primary rest =>
+    simp only
+    split
+    · rfl
+    · rw [searchLoop_congr _ _ _ _ (fun s _ => indexOfSet_callsite text primary s)]
+
+theorem finderLiteralAfterLoopIx_eq (lower : Nat → Nat) (l : LitAfterLoop) (text : List Nat) (minLen pos : Nat) :
+    finderLiteralAfterLoopIx lower l text minLen pos = finderLiteralAfterLoop lower l text minLen pos := by
+  unfold finderLiteralAfterLoopIx finderLiteralAfterLoop
+  cases l.loopSet with
+  | none => rfl
+  | some S =>
+    simp only
+    rw [searchLoop_congr _ _ _ _ (fun s _ => indexOfLiteralAfterLoop_callsite lower l text s)]
+
 end RegexVerif.Lemmas.IndexOf
